@@ -345,8 +345,10 @@ class ApplyMonitors:
         # (3a) exact undo of the whole recorded history
         if not exact_undo or not self.is_core():
             return
-        kinds = [core.step_kind(s) for s in tr.steps]
-        if what == "raw_step" and kinds and kinds[0] in ("addMark", "removeMark", "replaceAround"):
+        # raw primitive mark / replace-around steps have no claimed exact inverse (C04 names replace,
+        # attr, doc-attr and node-mark steps only)
+        if any(op.get("op") == "raw_step" and op.get("step", {}).get("stepType") in (
+                "addMark", "removeMark", "replaceAround") for op in ops):
             return
         d = tr.doc
         sim.in_oracle += 1
